@@ -83,6 +83,7 @@ type Env struct {
 	StartRow         int               `json:"start_row"`
 	Prompt           string            `json:"prompt"`
 	RPrompt          string            `json:"rprompt,omitempty"`
+	PromptLater      string            `json:"prompt_later,omitempty"` // the prompt from the second Readline call of the session on
 	Mode             string            `json:"mode"` // emacs | vi
 	Inputrc          []string          `json:"inputrc,omitempty"`
 	Files            map[string]string `json:"files,omitempty"`
